@@ -32,6 +32,18 @@ class Item:
         return f"Item({self.name!r},{self.size},{self.flag},{self.tags})"
 
 
+@symbol
+@dataclass(eq=False)
+class It:
+    a: int
+    b: int
+    c: int
+    tags: list = field(default_factory=list)
+
+    def __repr__(self):
+        return f"It({self.a},{self.b},{self.c},{self.tags})"
+
+
 OPS = {'lt': operator.lt, 'le': operator.le, 'gt': operator.gt, 'ge': operator.ge, 'eq': operator.eq, 'ne': operator.ne}
 
 
@@ -239,11 +251,29 @@ def run_single(dom, cond, variant=0):
     return got, want, _Q()
 
 
-def run_multi(doms, cond, sel=None):
+def run_multi(doms, cond, sel=None, decl=None, sel_order=None, flat=False):
+    """decl: the order in which the variables are declared (their ids, hence the key order of every result cache, follow
+    it); sel_order: the order in which the selected variables are listed; flat: the conjuncts of a top-level conjunction
+    are passed to set_of one by one.  Rows are compared as tuples in the order of `sel`."""
     with symbolic_mode():
-        xs = [let(type_=Item, domain=d) for d in doms]
+        xs = [None] * len(doms)
+        for i in (decl if decl is not None else range(len(doms))):
+            xs[i] = let(type_=Item, domain=doms[i])
         sel = list(range(len(xs))) if sel is None else sel
-        q = an(set_of([xs[i] for i in sel], build(cond, xs)))
+        listed = [xs[i] for i in (sel_order if sel_order is not None else sel)]
+        if flat and cond[0] == 'and':
+            conds = []
+
+            def conjuncts(c):
+                if c[0] == 'and':
+                    conjuncts(c[1])
+                    conjuncts(c[2])
+                else:
+                    conds.append(build(c, xs))
+            conjuncts(cond)
+            q = an(set_of(listed, *conds))
+        else:
+            q = an(set_of(listed, build(cond, xs)))
     rows = list(q.evaluate())
     got = [tuple(id(r[xs[i]]) for i in sel) for r in rows]
     want = []
@@ -251,6 +281,7 @@ def run_multi(doms, cond, sel=None):
         env = dict(enumerate(combo))
         if holds(cond, env):
             want.append(tuple(id(env[i]) for i in sel))
+    q._eql_verif_sel_ = [xs[i] for i in sel]
     return got, want, q
 
 
